@@ -29,3 +29,21 @@ CASES += [
     dict(id='c13-eq-stringto-u64-ull', prop='C13', file='src/celma/format/string_to.hpp', expect=None,
          old="S2( uint64_t, stoul)", new="S2( uint64_t, stoull)"),
 ]
+
+I32 = 'src/library/format/detail/int32_to_string.cpp'
+
+
+def _div10_case(cid, magic, shift, expect):
+    helper = ("inline uint32_t div10( uint32_t value)\n{\n   return static_cast< uint32_t>( (static_cast< uint64_t>( value) * "
+              "%s) >> %d);\n} // div10\n\n\n/// The actual conversion function. Starts at the of the buffer, stores the last" % (magic, shift))
+    edits = [(I32, "/// The actual conversion function. Starts at the of the buffer, stores the last", helper)]
+    for k in range(10, 1, -1):
+        edits.append((I32, "   case %2d:  *buffer-- = '0' + (value %% 10);  value /= 10;  [[fallthrough]];" % k,
+                      "   case %2d:  *buffer-- = '0' + (value %% 10);  value = div10( value);  [[fallthrough]];" % k))
+    return dict(id=cid, prop='C13', expect=expect, edits=edits)
+
+
+CASES += [
+    _div10_case('c13-div10-by-inexact-reciprocal', '0x66666667UL', 34, 'P2'),
+    _div10_case('c13-eq-div10-by-exact-reciprocal', '0xCCCCCCCDUL', 35, None),
+]
